@@ -3,6 +3,7 @@
 From Coq Require Import String List Bool.
 Require Import TT.Model.Str TT.Spec.TsObs TT.Spec.C02Closed TT.Model.C02Model TT.Spec.C02Domain TT.Model.C02Samples.
 Require Import TT.Proofs.C02Reflect TT.Proofs.C02Proofs TT.Proofs.C02World TT.Proofs.C02Witness.
+Require Import TT.Model.C02Reuse TT.Model.C02ReuseSamples TT.Proofs.C02ReuseProofs.
 Import ListNotations.
 
 (* The run-time oracle decides the Prop-level definition of a closed module graph:
@@ -95,6 +96,71 @@ Proof.
   split; [apply w_event_nested_repaired|]. split; [apply w_same_event_twice_repaired|]. split; [apply w_ipc_channel_ok|].
   exact w_batch3_repaired. Qed.
 
+(* ONE analyzer reused over a history of rounds (Model/C02Reuse.v: the AST cache keeps removed files, a
+   discovered struct keeps its first definition for ever, events accumulate; the files of a round are
+   gen of the view of the accumulated state under the round's type mappings). For every history
+   outside the class C02-9 (no later round lacks a mapping key an earlier round had) in which what
+   each round adds - the definitions read in that round and the functions of its analysis - only
+   mentions names that are discovered after the round or mapped by it (fresh_ok, decidable), every
+   round whose view is well formed, of the documented type language and outside the per-project
+   classes is closed and duplicate-free. The closed-world premise of the view is not assumed: it is
+   the invariant carried through the fold of the rounds. *)
+Theorem C02_reuse_closed : forall h zod,
+  kf_reuse_maps h = false -> rounds_fresh_ok st0 h = true ->
+  forall sr, In sr (run st0 h) ->
+    wf (reuse_view sr) = true -> dom (reuse_view sr) = true -> kf_C02 (reuse_view sr) zod = false ->
+    closed (reuse_files sr zod) /\ exports_nodup (reuse_files sr zod).
+Proof. exact reuse_closed. Qed.
+
+(* the invariant itself: after every round the accumulated state is a closed world under that round's mappings *)
+Theorem C02_reuse_closed_world_invariant : forall h,
+  kf_reuse_maps h = false -> rounds_fresh_ok st0 h = true ->
+  Forall (fun sr => closed_world (reuse_view sr) = true) (run st0 h).
+Proof. exact reuse_closed_world_invariant. Qed.
+
+(* discovered structs are never forgotten and never re-read *)
+Theorem C02_reuse_structs_monotone : forall st r, exists more, st_structs (step st r) = st_structs st ++ more.
+Proof. exact reuse_structs_monotone. Qed.
+
+(* the class C02-9 is not empty and the statement is false inside it: every other premise holds in every
+   round, and the second round's files are not closed (the stale Doc mentions the no longer mapped Uuid) *)
+Theorem C02_reuse_refuted : exists h zod sr,
+  rounds_fresh_ok st0 h = true /\ In sr (run st0 h) /\
+  wf (reuse_view sr) = true /\ dom (reuse_view sr) = true /\ kf_C02 (reuse_view sr) zod = false /\
+  kf_reuse_maps h = true /\ ~ (closed (reuse_files sr zod) /\ exports_nodup (reuse_files sr zod)).
+Proof. exact reuse_refuted. Qed.
+
+(* stated, not asserted: fresh_ok follows from the sources - if every name mentioned by a function of the
+   analysed cache or by a definition read in this round has a definition in the cache, is already
+   discovered or is mapped, and the cache is of the documented type language, then what the round
+   adds is closed (needs the completeness of resolve_types_lazily restricted to names not yet
+   discovered: harvest_q and grow_stable of Proofs/C02World.v relativised to info_now). Checked at run
+   time on every round of every reuse history. *)
+Definition C02_reuse_fresh_full_statement : Prop := forall st r,
+  let c := cache_merge (st_cache st) (ri_files r) in
+  let st' := step st r in
+  dom {| pj_items := eff c; pj_maps := ri_maps r |} = true ->
+  (forall it n, In it (fresh_items st st') -> In n (item_names it) ->
+     info_now c n <> None \/ known (st_structs st) n = true \/ mapped (ri_maps r) n = true) ->
+  fresh_ok st st' (ri_maps r) = true.
+
+(* non-vacuity of C02_reuse_closed: the witness history of C02-9 with the mapping kept, and a three-round
+   history (event file removed from disk, payload struct redefined under its old name, types added) *)
+Example C02_ex_reuse :
+  kf_reuse_maps h_maps_kept = false /\ rounds_fresh_ok st0 h_maps_kept = true /\
+  forallb (round_in_premises false) (run st0 h_maps_kept) = true /\
+  kf_reuse_maps h_three = false /\ rounds_fresh_ok st0 h_three = true /\
+  forallb (round_in_premises true) (run st0 h_three) = true /\
+  map (fun sr => map fst (st_structs (fst sr))) (run st0 h_three) =
+    [[L "User"; L "Progress"]; [L "User"; L "Progress"]; [L "User"; L "Progress"; L "Team"; L "Status"]]%string /\
+  map (fun sr => c02_ok (reuse_files sr true)) (run st0 h_three) = [true; true; true].
+Proof. exact reuse_examples. Qed.
+Example C02_ex_reuse_class :
+  kf_reuse_maps h_maps_dropped = true /\ rounds_fresh_ok st0 h_maps_dropped = true /\
+  forallb (round_in_premises false) (run st0 h_maps_dropped) = true /\
+  map (fun sr => c02_ok (reuse_files sr false)) (run st0 h_maps_dropped) = [true; false].
+Proof. exact reuse_maps_dropped_fails. Qed.
+
 (* statement sequences: an initialiser that cannot be typed keeps the payload variable's earlier type *)
 Example C02_ex_rebinding : repaired w_rebind false /\ repaired w_rebind true.
 Proof. split; apply w_rebind_ok. Qed.
@@ -123,3 +189,7 @@ Print Assumptions C02_types_exports_nodup_plain.
 Print Assumptions C02_refuted.
 Print Assumptions C02_class_witnesses.
 Print Assumptions C02_repaired_witnesses.
+Print Assumptions C02_reuse_closed.
+Print Assumptions C02_reuse_closed_world_invariant.
+Print Assumptions C02_reuse_structs_monotone.
+Print Assumptions C02_reuse_refuted.
